@@ -15,6 +15,7 @@ from .c02_sym import (
     BoundBuiltin,
     ClassVal,
     Closure,
+    DDict,
     Effect,
     Explorer,
     ExtObj,
@@ -53,6 +54,10 @@ class Interp(_Interp):
         if t in (list, tuple, set, frozenset):
             if not args:
                 return t()
+            if t in (set, frozenset) and isinstance(args[0], ExtView) and args[0].kind in ("nodes", "edges") and not args[0].obj.concrete:
+                return args[0]  # a set of the nodes / edges answers membership and subset tests like the view itself
+            if t in (set, frozenset) and isinstance(args[0], ExtObj) and not args[0].concrete:
+                return ExtView(args[0], "nodes")
             if isinstance(args[0], Sym) and args[0].kind == "set":
                 return args[0]  # a copy of the symbolic set answers membership tests like the set itself
             if t in (list, tuple) and isinstance(args[0], Seq) and not args[0].concrete:
@@ -132,7 +137,7 @@ class Interp(_Interp):
                 todo.extend(child_nodes(x))
             return out
         root = dotted.split(".")[0]
-        if root in PURE_LIBS and dotted not in ("functools.partial", "functools.reduce", "itertools.chain", "itertools.chain.from_iterable", "itertools.accumulate", "itertools.pairwise") or (root in PURE_LIBS and all(is_native(a) for a in args) and not kwargs and dotted.startswith("itertools.")):
+        if root in PURE_LIBS and dotted not in ("functools.partial", "functools.reduce", "itertools.chain", "itertools.chain.from_iterable", "itertools.accumulate", "itertools.pairwise", "operator.itemgetter", "operator.attrgetter", "operator.methodcaller") or (root in PURE_LIBS and all(is_native(a) for a in args) and not kwargs and dotted.startswith("itertools.")):
             if all(is_native(a) or type(a).__module__ in PURE_LIBS for a in [*args, *kwargs.values()]) and not any(isinstance(a, (list, dict, set)) for a in args):
                 import importlib
 
@@ -170,13 +175,11 @@ class Interp(_Interp):
                 kind, srcs = self.iterate(args[0], node, frame)
                 if kind != "concrete":
                     return App("chain", (srcs,))
-            out = []
+            # concatenation of partially known sequences: the known items (records yielded by generators, ...) stay known
+            cparts: list = []
             for s in srcs:
-                kind, items = self.iterate(s, node, frame)
-                if kind != "concrete":
-                    return App("chain", tuple(_h(x) for x in srcs))
-                out.extend(items)
-            return out
+                cparts.extend(self.parts_of(s, node, frame))
+            return self.seq_value(cparts)
         if dotted == "itertools.accumulate":
             kind, items = self.iterate(args[0], node, frame)
             if kind != "concrete":
@@ -203,9 +206,20 @@ class Interp(_Interp):
             return list(items)
         if dotted in LIBRARY_OBJECT_TYPES or (dotted.startswith("networkx.") and name in ("DiGraph", "Graph")):
             o = ExtObj(dotted, f"graph{len(self.ext_objs) + 1}")
+            o.concrete = bool(getattr(self.ex, "concrete_graph", False))
             self.ext_objs.append(o)
+            data = args[0] if args else kwargs.get("incoming_graph_data")
+            if data is not None:
+                if isinstance(data, (dict, ExtObj)):
+                    raise Unsupported("graph constructed from a mapping / another graph", node, fi)
+                self.ext_method(o, "add_edges_from", [data], {}, node, frame)  # DiGraph(edge list)
             return o
         if dotted.startswith("networkx."):
+            if name == "freeze" and args and isinstance(args[0], ExtObj) and args[0].concrete:
+                args[0].frozen = True
+                return args[0]
+            if args and isinstance(args[0], ExtObj) and args[0].concrete:
+                raise Unsupported(f"{dotted} on a concrete graph", node, fi)
             if name == "freeze" and args and isinstance(args[0], ExtObj):
                 self.effects.append(Effect("ext", args[0], "freeze", tuple(args[1:]), dict(kwargs), self.in_loop > 0, dict(self.path), args[0].version))
                 return args[0]
@@ -216,8 +230,65 @@ class Interp(_Interp):
                 return args[1]
         if dotted == "dataclasses.field":
             raise Unsupported("dataclasses.field outside a class body", node, fi)
-        if dotted == "operator.itemgetter" or dotted == "operator.attrgetter":
-            raise Unsupported(dotted, node, fi)
+        if dotted in ("operator.itemgetter", "operator.attrgetter", "operator.methodcaller"):
+            return Partial(ExtRef(f"operator.__{name}__"), ((tuple(args), tuple(sorted(kwargs.items()))),), {})
+        if dotted in ("operator.__itemgetter__", "operator.__attrgetter__", "operator.__methodcaller__"):
+            (keys, kw), obj = args[0], args[1]
+            if name == "__methodcaller__":
+                return self.call(self.getattr_value(obj, keys[0], None, frame), list(keys[1:]), dict(kw), node, frame)
+            if name == "__itemgetter__":
+                vals = [self.subscript(obj, k, node, frame) for k in keys]
+            else:
+                vals = []
+                for k in keys:
+                    v = obj
+                    for part in k.split("."):
+                        v = self.getattr_value(v, part, None, frame)
+                    vals.append(v)
+            return vals[0] if len(vals) == 1 else tuple(vals)
+        if dotted in ("operator.getitem", "operator.contains", "operator.eq", "operator.ne", "operator.not_", "operator.truth", "operator.is_", "operator.is_not", "operator.add", "operator.concat") and not all(is_native(a) for a in args):
+            if name == "getitem":
+                return self.subscript(args[0], args[1], node, frame)
+            if name == "contains":
+                return self.contains(args[0], args[1])
+            if name in ("eq", "ne"):
+                return self.equal(args[0], args[1]) == (name == "eq")
+            if name in ("not_", "truth"):
+                return self.truth(args[0]) == (name == "truth")
+            if name in ("is_", "is_not"):
+                return self.compare(ast.Is() if name == "is_" else ast.IsNot(), args[0], args[1])
+            return self.binop(ast.Add(), args[0], args[1], node, frame)
+        if dotted in ("contextlib.suppress",):
+            return ("__suppress__", tuple(args))
+        if dotted in ("contextlib.nullcontext",):
+            return ("__nullcontext__", args[0] if args else None)
+        if dotted in ("collections.defaultdict",):
+            d = DDict()
+            d.factory = args[0] if args else None
+            if len(args) > 1:
+                d.update(self.call_pytype(dict, [args[1]], {}, node, frame))
+            d.update(kwargs)
+            return d
+        if dotted in ("collections.OrderedDict",):
+            return self.call_pytype(dict, args, kwargs, node, frame)
+        if dotted in ("collections.namedtuple", "typing.NamedTuple") and args and isinstance(args[0], str):
+            return self.functional_namedtuple(dotted, args, kwargs, node, frame)
+        if dotted in ("dataclasses.replace", "dataclasses.astuple", "dataclasses.asdict", "copy.replace") and args and isinstance(args[0], Inst):
+            rec = args[0]
+            names = self.record_fields(rec.ci)
+            if names is None:
+                raise Raised(None, "TypeError")
+            if name == "replace":
+                if any(k not in names for k in kwargs):
+                    raise Raised(None, "TypeError")
+                return Inst(rec.ci, {**rec.fields, **kwargs}, rec.args, rec.site)
+            if name == "astuple":
+                return tuple(rec.fields[n] for n in names)
+            return {n: rec.fields[n] for n in names}
+        if dotted.startswith("itertools.") and name in ("starmap", "islice", "zip_longest", "filterfalse", "repeat", "product", "permutations", "combinations", "combinations_with_replacement", "batched", "tee", "takewhile", "dropwhile"):
+            r = self.itertools_model(name, args, kwargs, node, frame)
+            if r is not NotImplemented:
+                return r
         if dotted in ("copy.copy", "copy.deepcopy") and args:
             if is_native(args[0]):
                 import copy
@@ -234,6 +305,110 @@ class Interp(_Interp):
             raise Unsupported(f"library call {dotted} on values the executor tracks (no model of its effect)", node, fi)
         return App(f"ext:{dotted}", tuple(_h(a) for a in args) + tuple((k, _h(v)) for k, v in sorted(kwargs.items())))
 
+    def itertools_model(self, name: str, args: list, kwargs: dict, node, frame) -> Any:
+        """itertools functions that only re-arrange the elements of their (known) arguments are run on lists of abstract values; the ones
+        that call a function call it through the executor."""
+        import itertools
+
+        fi = frame.fi if frame else None
+        if name in ("starmap", "filterfalse", "takewhile", "dropwhile"):
+            kind, items = self.iterate(args[1], node, frame)
+            if kind != "concrete":
+                return App(name, (_h(args[0]), items))
+            if name == "starmap":
+                out = []
+                for x in items:
+                    k2, xs = self.iterate(x, node, frame)
+                    if k2 != "concrete":
+                        raise Unsupported("starmap over argument tuples of unknown length", node, fi)
+                    out.append(self.call(args[0], list(xs), {}, node, frame))
+                return out
+            pred = (lambda x: self.truth(x)) if args[0] is None else (lambda x: self.truth(self.call(args[0], [x], {}, node, frame)))
+            if name == "filterfalse":
+                return [x for x in items if not pred(x)]
+            out = []
+            if name == "takewhile":
+                for x in items:
+                    if not pred(x):
+                        break
+                    out.append(x)
+                return out
+            dropping = True
+            for x in items:
+                if dropping and pred(x):
+                    continue
+                dropping = False
+                out.append(x)
+            return out
+        if name == "islice":
+            kind, items = self.iterate3(args[0], node, frame)
+            bounds = args[1:]
+            if not all(b is None or isinstance(b, int) for b in bounds):
+                return NotImplemented
+            sl = slice(*bounds) if len(bounds) > 1 else slice(bounds[0])
+            if kind == "concrete":
+                return list(items)[sl]
+            return self.subscript(items if kind == "seq" else items, sl, node, frame)
+        if name == "repeat":
+            if len(args) > 1 and isinstance(args[1], int):
+                return [args[0]] * args[1]
+            return NotImplemented
+        if name == "tee":
+            kind, items = self.iterate(args[0], node, frame)
+            if kind != "concrete":
+                return NotImplemented
+            return tuple(list(items) for _ in range(args[1] if len(args) > 1 else 2))
+        its = []
+        for a in args:
+            if isinstance(a, int) and name in ("permutations", "combinations", "combinations_with_replacement", "batched"):
+                its.append(a)
+                continue
+            kind, items = self.iterate(a, node, frame)
+            if kind != "concrete":
+                return NotImplemented
+            its.append(list(items))
+        if not all(isinstance(v, int) or v is None or is_native(v) for v in kwargs.values()) and name != "zip_longest":
+            return NotImplemented
+        try:
+            return [tuple(x) if isinstance(x, tuple) else x for x in getattr(itertools, name)(*its, **kwargs)]
+        except Exception as ex:  # noqa: BLE001
+            raise Raised(None, type(ex).__name__)
+
+    def functional_namedtuple(self, dotted: str, args: list, kwargs: dict, node, frame) -> Any:
+        """collections.namedtuple("N", "a b") / typing.NamedTuple("N", [("a", T), ...]): a synthetic NamedTuple class."""
+        from core.loader import ClassInfo
+
+        tname, spec = args[0], (args[1] if len(args) > 1 else kwargs.get("field_names", kwargs.get("fields", [])))
+        if isinstance(spec, str):
+            fields = spec.replace(",", " ").split()
+        else:
+            kind, items = self.iterate(spec, node, frame)
+            if kind != "concrete":
+                raise Unsupported("NamedTuple with unknown fields", node, frame.fi if frame else None)
+            fields = [x if isinstance(x, str) else x[0] for x in items]
+        if not fields and dotted == "typing.NamedTuple":
+            fields = list(kwargs)
+        if not all(isinstance(f, str) and f.isidentifier() for f in fields):
+            raise Unsupported("NamedTuple with computed field names", node, frame.fi if frame else None)
+        defaults = kwargs.get("defaults") or ()
+        if not is_native(list(defaults)):
+            raise Unsupported("NamedTuple with symbolic defaults", node, frame.fi if frame else None)
+        body = "\n".join(f"    {f}: object" + (f" = {defaults[i - (len(fields) - len(defaults))]!r}" if i >= len(fields) - len(defaults) else "") for i, f in enumerate(fields)) or "    pass"
+        cdef = ast.parse(f"class {tname}(NamedTuple):\n{body}\n").body[0]
+        mod = frame.module if frame is not None else next(iter(self.repo.modules.values()))
+        ci = ClassInfo(tname, cdef, mod, list(cdef.bases), ["typing.NamedTuple"])
+        ci.name = tname
+        for st in cdef.body:
+            if isinstance(st, ast.AnnAssign) and isinstance(st.target, ast.Name):
+                ci.ann_attrs[st.target.id] = st.annotation
+                if st.value is not None:
+                    ci.class_attrs[st.target.id] = st.value
+        # distinct synthetic classes must not share cache entries of the repository's class tables
+        object.__setattr__(ci, "name", f"{tname}")
+        ci.module = mod
+        self.repo._mro_cache[f"{mod.name}.{tname}"] = [ci]
+        return ClassVal(ci)
+
     def call_builtin(self, name: str, args: list, kwargs: dict, node, frame) -> Any:
         fi = frame.fi if frame else None
         if name == "noop":
@@ -242,6 +417,8 @@ class Interp(_Interp):
             v = args[0]
             if isinstance(v, Seq):
                 return len(v.items()) if v.concrete else App("len", (_h(v),))
+            if isinstance(v, (list, dict, set)) and self.opened(v) is not None:
+                return App("len", (self.opened(v).src,))
             if isinstance(v, (list, tuple, dict, set, frozenset, str)):
                 return len(v)
             if isinstance(v, Term):
@@ -250,6 +427,10 @@ class Interp(_Interp):
                 m = self.repo.lookup_method(v.ci, "__len__")
                 if m is not None:
                     return self.call_function(m, [v], {})
+            if isinstance(v, ExtObj) and v.concrete:
+                return len(v.cnodes)
+            if isinstance(v, ExtView) and v.obj.concrete:
+                return len(self.view_native(v))
             if isinstance(v, ExtObj):
                 return App(f"extlen@{v.version}", (v.name,))
             if isinstance(v, ExtView):
@@ -421,13 +602,48 @@ class Interp(_Interp):
             return App(f"meth:{name}", (show(recv), *[_h(a) for a in args]))
         if isinstance(recv, ExtView):
             return self.view_method(recv, name, args, kwargs, node, frame)
+        if name.startswith("namedtuple."):
+            which = name.split(".")[1]
+            if which == "_make":
+                kind, items = self.iterate(args[0], node, frame)
+                if kind != "concrete":
+                    raise Unsupported("NamedTuple._make of an unknown iterable", node, fi)
+                return self.instantiate(recv.ci, list(items), {}, node, frame)
+            names = list(recv.args[1:])
+            if which == "_replace":
+                if args or any(k not in names for k in kwargs):
+                    raise Raised(None, "ValueError" if not args else "TypeError")
+                new = Inst(recv.ci, {n: kwargs.get(n, recv.fields[n]) for n in names}, recv.args, recv.site)
+                return new
+            if which == "_asdict":
+                return {n: recv.fields[n] for n in names}
+            return self.call_method_builtin(tuple(recv.fields[n] for n in names), which, args, kwargs, node, frame)
         if isinstance(recv, Inst) and name.startswith("NodeVisitor."):
             return self.node_visitor(recv, name.split(".")[1], args[0], node, frame)
         if isinstance(recv, Term):
             return App(f"meth:{name}", (recv, *[_h(a) for a in args], *[(k, _h(v)) for k, v in sorted(kwargs.items())]))
         if isinstance(recv, str):
             if name == "join":
-                kind, items = self.iterate(args[0], node, frame)
+                kind, items = self.iterate3(args[0], node, frame)
+                if kind == "seq" and not items.concrete:
+                    # known items at either end of a partially known sequence stay visible: join(unknown part) + sep + item + ...
+                    parts_ = list(items.parts)
+                    lead, trail = [], []
+                    while parts_ and parts_[0][0] == "item" and isinstance(parts_[0][1], (str, Term)):
+                        lead.append(parts_.pop(0)[1])
+                    while parts_ and parts_[-1][0] == "item" and isinstance(parts_[-1][1], (str, Term)):
+                        trail.insert(0, parts_.pop()[1])
+                    if (lead or trail) and not items.unordered:
+                        mid = App("meth:join", (recv, _h(Seq(parts_))))
+                        out_: list = []
+                        for x in [*lead, mid, *trail]:
+                            if out_:
+                                out_.append(recv)
+                            out_.append(x)
+                        return cat(*out_)
+                    kind, items = "havoc", App("seq", (_h(items),))
+                elif kind == "seq":
+                    kind, items = "concrete", items.items()
                 if kind != "concrete":
                     return App("meth:join", (recv, items))
                 parts: list = []
@@ -504,15 +720,42 @@ class Interp(_Interp):
             recv.append(args[0]) if name == "append" else recv.insert(0, args[0])
             return None
         if name in ("extend", "extendleft"):
-            kind, items = self.iterate(args[0], node, frame)
+            kind, items = self.iterate3(args[0], node, frame)
             if kind != "concrete":
-                raise Unsupported("list.extend with an iterable of unknown length", node, fi)
+                items = items.items() if kind == "seq" else []
+                self.open_container(recv, "list", False)  # known items are kept, the rest is an unknown number of unknown elements
             if name == "extend":
                 recv.extend(items)
             else:
                 for x in items:
                     recv.insert(0, x)
             return None
+        o = self.opened(recv)
+        if o is not None and name in ("pop", "popleft", "index", "count", "remove", "sort", "copy", "clear", "insert"):
+            if name == "clear":
+                recv.clear()
+                self.open.pop(id(recv), None)
+                return None
+            if name == "copy":
+                c = list(recv)
+                self.open[id(c)] = type(o)(c, o.name, o.epoch, o.ver)
+                return c
+            if name in ("pop", "popleft"):
+                o.epoch += 1
+                return App("elem", (o.src,))
+            if name == "insert":
+                recv.append(args[1])
+                return None
+            if name == "sort":
+                return None  # the known items are kept in some order; the container is iterated as unordered anyway
+            if name == "remove":
+                o.epoch += 1
+                for i, x in enumerate(recv):
+                    if x is args[0] or (isinstance(x, Term) and x == args[0]):
+                        del recv[i]
+                        break
+                return None
+            return App(f"meth:{name}", (o.src, *[_h(a) for a in args]))
         if name in ("pop", "popleft"):
             if not recv:
                 raise Raised(None, "IndexError")
@@ -560,17 +803,24 @@ class Interp(_Interp):
 
     def dict_method(self, recv: dict, name: str, args: list, kwargs: dict, node, frame) -> Any:
         fi = frame.fi if frame else None
+        o = self.opened(recv)
         if name == "get":
             key = self.dict_key(recv, _hashable(args[0]))
             if key is not _MISSING:
                 return recv[key]
+            if o is not None and self.decide(self.member_atom(o, args[0])):
+                return App("value", (o.src, _h(args[0])))
             return args[1] if len(args) > 1 else kwargs.get("default")
         if name == "setdefault":
             key = self.dict_key(recv, _hashable(args[0]))
             if key is _MISSING:
+                if o is not None and self.decide(self.member_atom(o, args[0])):
+                    return App("value", (o.src, _h(args[0])))
                 key = _hashable(args[0])
                 recv[key] = args[1] if len(args) > 1 else None
             return recv[key]
+        if o is not None and name in ("items", "keys", "values"):
+            return Seq(self.open_parts(recv, name), unordered=True)
         if name == "items":
             return list(recv.items())
         if name == "keys":
@@ -582,9 +832,10 @@ class Interp(_Interp):
                 if isinstance(a, dict):
                     recv.update(a)
                 else:
-                    kind, items = self.iterate(a, node, frame)
+                    kind, items = self.iterate3(a, node, frame)
                     if kind != "concrete":
-                        raise Unsupported("dict.update with an unknown iterable", node, fi)
+                        items = items.items() if kind == "seq" else []
+                        self.open_container(recv, "dict", False)
                     for k, v in items:
                         recv[_hashable(k)] = v
             recv.update(kwargs)
@@ -593,13 +844,20 @@ class Interp(_Interp):
             k = self.dict_key(recv, _hashable(args[0]))
             if k is not _MISSING:
                 return recv.pop(k)
+            if o is not None and self.decide(self.member_atom(o, args[0])):
+                o.epoch += 1
+                return App("value", (o.src, _h(args[0])))
             if len(args) > 1:
                 return args[1]
             raise Raised(None, "KeyError")
         if name == "copy":
-            return dict(recv)
+            c = dict(recv)
+            if o is not None:
+                self.open[id(c)] = type(o)(c, o.name, o.epoch, o.ver)
+            return c
         if name == "clear":
             recv.clear()
+            self.open.pop(id(recv), None)
             return None
         raise Unsupported(f"dict.{name}", node, fi)
 
@@ -610,11 +868,19 @@ class Interp(_Interp):
                 recv.add(_hashable(args[0]))
             return None
         if name in ("update", "union", "difference", "intersection", "difference_update", "issubset", "issuperset", "isdisjoint"):
+            if name in ("issubset", "issuperset", "isdisjoint") and len(args) == 1 and isinstance(args[0], (ExtObj, ExtView)) and not (args[0].obj if isinstance(args[0], ExtView) else args[0]).concrete:
+                if name == "issuperset":
+                    raise Unsupported("set.issuperset of the nodes of an abstract graph", node, fi)
+                hits = [self.contains(args[0], x) for x in sorted(recv, key=show)]
+                return all(hits) if name == "issubset" else not any(hits)
             others = []
             for a in args:
-                kind, items = self.iterate(a, node, frame)
+                kind, items = self.iterate3(a, node, frame)
                 if kind != "concrete":
-                    raise Unsupported(f"set.{name} with an iterable of unknown length", node, fi)
+                    if name != "update":
+                        raise Unsupported(f"set.{name} with an iterable of unknown length", node, fi)
+                    items = items.items() if kind == "seq" else []
+                    self.open_container(recv, "set", False)
                 others.extend(items)
             if name in ("update", "union"):
                 tgt = recv if name == "update" else set(recv)
@@ -635,16 +901,29 @@ class Interp(_Interp):
             if name == "issuperset":
                 return all(self.contains(recv, x) for x in others)
             return not any(self.contains(others, x) for x in recv)
+        if name in ("discard", "remove") and o is not None:
+            o.epoch += 1
         if name in ("discard", "remove"):
             for x in list(recv):
                 if self.equal(x, args[0]):
                     recv.discard(x)
                     return None
-            if name == "remove":
+            if name == "remove" and o is None:
                 raise Raised(None, "KeyError")
             return None
+        o = self.opened(recv)
         if name == "copy":
-            return set(recv)
+            c = set(recv)
+            if o is not None:
+                self.open[id(c)] = type(o)(c, o.name, o.epoch, o.ver)
+            return c
+        if name == "clear":
+            recv.clear()
+            self.open.pop(id(recv), None)
+            return None
+        if o is not None and name == "pop":
+            o.epoch += 1
+            return App("elem", (o.src,))
         if name == "pop":
             if not recv:
                 raise Raised(None, "KeyError")
@@ -655,6 +934,10 @@ class Interp(_Interp):
 
     def view_method(self, w: ExtView, name: str, args: list, kwargs: dict, node, frame) -> Any:
         o, v = w.obj, w.obj.version
+        if o.concrete:
+            if name == "data":
+                return self.view_call(w, [], {"data": args[0] if args else kwargs.get("data", True), "default": args[1] if len(args) > 1 else kwargs.get("default")}, node, frame)
+            return self.dict_method(self.view_native(w), name, args, kwargs, node, frame)
         if name == "get" and w.kind in ("adj1", "pred1"):
             a, b = (w.key, args[0]) if w.kind == "adj1" else (args[0], w.key)
             if self.decide(App(f"hasedge@{v}", (o.name, _h(a), _h(b)))):
@@ -685,27 +968,165 @@ class Interp(_Interp):
                     self.call(self.getattr_value(inst, "visit", node, frame), [x], {}, node, frame)
         return None
 
+    # ------------------------------------------------------------------ concrete library objects (networkx DiGraph semantics)
+    def concrete_graph_method(self, o: ExtObj, name: str, args: list, kwargs: dict, node, frame) -> Any:
+        fi = frame.fi if frame else None
+        if not all(is_native(a) for a in args if not isinstance(a, (list, tuple, dict, set, Seq))) :
+            raise Unsupported(f"symbolic argument of {name} on a concrete graph", node, fi)
+
+        def hashable(n: Any) -> Any:
+            if n is None:
+                raise Raised(None, "ValueError")
+            try:
+                hash(n)
+            except TypeError:
+                raise Raised(None, "TypeError")
+            if not is_native(n):
+                raise Unsupported("symbolic node in a concrete graph", node, fi)
+            return n
+
+        def add_node(n: Any, attrs: dict) -> None:
+            n = hashable(n)
+            o.cnodes.setdefault(n, {}).update(attrs)
+            o.cadj.setdefault(n, {})
+
+        def add_edge(u: Any, v: Any, attrs: dict) -> None:
+            for n in (u, v):
+                if hashable(n) not in o.cnodes:
+                    add_node(n, {})
+            o.cadj[u].setdefault(v, {}).update(attrs)
+
+        def remove_node(n: Any, strict: bool) -> None:
+            if n not in o.cnodes:
+                if strict:
+                    raise Raised(None, "NetworkXError")
+                return
+            del o.cnodes[n]
+            del o.cadj[n]
+            for u in o.cadj:
+                o.cadj[u].pop(n, None)
+
+        mutators = {"add_node", "add_nodes_from", "add_edge", "add_edges_from", "remove_node", "remove_nodes_from", "remove_edge", "remove_edges_from", "clear", "clear_edges", "update", "add_weighted_edges_from"}
+        if name in mutators and o.frozen:
+            raise Raised(None, "NetworkXError")
+        if name == "add_node":
+            add_node(args[0], kwargs)
+            return None
+        if name == "add_edge":
+            add_edge(args[0], args[1], kwargs)
+            return None
+        if name in ("add_nodes_from", "add_edges_from", "remove_nodes_from", "remove_edges_from"):
+            kind, items = self.iterate(args[0], node, frame)
+            if kind != "concrete":
+                raise Unsupported(f"{name} of an unknown collection on a concrete graph", node, fi)
+            for x in items:
+                if isinstance(x, Inst) and x.args[:1] == ("namedtuple",):
+                    x = tuple(x.fields[n] for n in x.args[1:])
+                if name == "add_nodes_from":
+                    if isinstance(x, tuple) and len(x) == 2 and isinstance(x[1], dict):
+                        add_node(x[0], {**kwargs, **x[1]})
+                    else:
+                        add_node(x, kwargs)
+                elif name == "add_edges_from":
+                    if not isinstance(x, (tuple, list)) or len(x) not in (2, 3):
+                        raise Raised(None, "NetworkXError")
+                    add_edge(x[0], x[1], {**kwargs, **(x[2] if len(x) == 3 else {})})
+                elif name == "remove_nodes_from":
+                    remove_node(x, False)
+                else:
+                    o.cadj.get(x[0], {}).pop(x[1], None)
+            return None
+        if name == "remove_node":
+            remove_node(args[0], True)
+            return None
+        if name == "remove_edge":
+            if args[1] not in o.cadj.get(args[0], {}):
+                raise Raised(None, "NetworkXError")
+            del o.cadj[args[0]][args[1]]
+            return None
+        if name == "clear":
+            o.cnodes.clear()
+            o.cadj.clear()
+            return None
+        if name == "clear_edges":
+            for u in o.cadj:
+                o.cadj[u].clear()
+            return None
+        if name in ("has_node", "__contains__"):
+            try:
+                return args[0] in o.cnodes
+            except TypeError:
+                return False
+        if name == "has_edge":
+            try:
+                return args[1] in o.cadj.get(args[0], {})
+            except TypeError:
+                return False
+        if name in ("has_successor", "has_predecessor"):
+            u, v = (args[0], args[1]) if name == "has_successor" else (args[1], args[0])
+            return v in o.cadj.get(u, {})
+        if name == "get_edge_data":
+            default = args[2] if len(args) > 2 else kwargs.get("default")
+            try:
+                return o.cadj.get(args[0], {}).get(args[1], default)
+            except TypeError:
+                return default
+        if name in ("successors", "neighbors", "predecessors"):
+            if args[0] not in o.cnodes:
+                raise Raised(None, "NetworkXError")
+            if name == "predecessors":
+                return [u for u in o.cnodes if args[0] in o.cadj.get(u, {})]
+            return list(o.cadj[args[0]])
+        if name in ("number_of_nodes", "order", "__len__"):
+            return len(o.cnodes)
+        if name in ("number_of_edges", "size"):
+            if args:
+                return 1 if args[1] in o.cadj.get(args[0], {}) else 0
+            return sum(len(a) for a in o.cadj.values())
+        if name in ("out_edges", "in_edges") and args:
+            if name == "out_edges":
+                return [(args[0], v) for v in o.cadj.get(args[0], {})]
+            return [(u, args[0]) for u in o.cnodes if args[0] in o.cadj.get(u, {})]
+        if name in ("out_degree", "in_degree", "degree") and args:
+            out_d = len(o.cadj.get(args[0], {}))
+            in_d = sum(1 for u in o.cnodes if args[0] in o.cadj.get(u, {}))
+            return {"out_degree": out_d, "in_degree": in_d, "degree": out_d + in_d}[name]
+        if name in ("copy", "to_directed"):
+            import copy as _copy
+
+            c = ExtObj(o.type, f"graph{len(self.ext_objs) + 1}", concrete=True, cnodes=_copy.deepcopy(o.cnodes), cadj=_copy.deepcopy(o.cadj))
+            self.ext_objs.append(c)
+            return c
+        raise Unsupported(f"method {name} of a concrete graph", node, fi)
+
     # ------------------------------------------------------------------ abstract library objects (networkx graph)
     def ext_method(self, o: ExtObj, name: str, args: list, kwargs: dict, node, frame) -> Any:
         fi = frame.fi if frame else None
+        if o.concrete:
+            return self.concrete_graph_method(o, name, args, kwargs, node, frame)
         v = o.version
         where = f"{fi.relpath}:{getattr(node, 'lineno', 0)}" if fi is not None and node is not None else ""
         if name in ("add_edges_from", "add_nodes_from") and args:
-            kind, items = self.iterate(args[0], node, frame)
-            if kind == "concrete":
-                for x in items:
-                    if name == "add_nodes_from":
-                        nd, extra = (x[0], x[1]) if isinstance(x, tuple) and len(x) == 2 and isinstance(x[1], dict) else (x, {})
-                        self.effects.append(Effect("ext", o, "add_node", (nd,), {**kwargs, **extra}, self.in_loop > 0, dict(self.path), v, where))
-                    else:
-                        if not isinstance(x, (tuple, list)) or len(x) < 2:
-                            raise Unsupported("add_edges_from with an element that is not a pair", node, fi)
-                        extra = x[2] if len(x) > 2 and isinstance(x[2], dict) else {}
-                        self.effects.append(Effect("ext", o, "add_edge", (x[0], x[1]), {**kwargs, **extra}, self.in_loop > 0, dict(self.path), v, where, len(self.decisions)))
-                o.version += 1
-                return None
+            # the known items of a partially known collection are added one by one; the unknown rest stays one opaque bulk effect
+            for part in self.parts_of(args[0], node, frame):
+                if part[0] != "item":
+                    self.effects.append(Effect("ext", o, name, (part[2],), dict(kwargs), True, dict(self.path), v, where, len(self.decisions)))
+                    continue
+                x = part[1]
+                if name == "add_nodes_from":
+                    nd, extra = (x[0], x[1]) if isinstance(x, tuple) and len(x) == 2 and isinstance(x[1], dict) else (x, {})
+                    self.effects.append(Effect("ext", o, "add_node", (nd,), {**kwargs, **extra}, self.in_loop > 0, dict(self.path), v, where, len(self.decisions), (*self.iter_origins, *([(part[2], part[3])] if len(part) > 2 else []))))
+                else:
+                    if isinstance(x, Inst) and x.args[:1] == ("namedtuple",):
+                        x = tuple(x.fields[n] for n in x.args[1:])
+                    if not isinstance(x, (tuple, list)) or len(x) < 2:
+                        raise Unsupported("add_edges_from with an element that is not a pair", node, fi)
+                    extra = x[2] if len(x) > 2 and isinstance(x[2], dict) else {}
+                    self.effects.append(Effect("ext", o, "add_edge", (x[0], x[1]), {**kwargs, **extra}, self.in_loop > 0, dict(self.path), v, where, len(self.decisions), tuple(self.iter_origins)))
+            o.version += 1
+            return None
         if name in MUTATORS:
-            self.effects.append(Effect("ext", o, name, tuple(args), dict(kwargs), self.in_loop > 0, dict(self.path), v, where, len(self.decisions)))
+            self.effects.append(Effect("ext", o, name, tuple(args), dict(kwargs), self.in_loop > 0, dict(self.path), v, where, len(self.decisions), tuple(self.iter_origins)))
             o.version += 1
             return None
         if name in ("has_node", "__contains__"):
